@@ -1,16 +1,18 @@
 _V = 'xdoctest.static_analysis:TopLevelVisitor.'
 PROPERTY = {
     'id': 'C07',
-    'contract_modules': ['util_import', 'static_analysis', 'parser'],
+    'contract_modules': ['util_import', 'static_analysis', 'parser', 'collect'],
     'functions': [_V + 'visit_FunctionDef', _V + 'visit_ClassDef', _V + 'visit_If', 'ast:NodeVisitor.generic_visit', _V + '_get_docstring',
                   _V + '_workaround_func_lineno', 'xdoctest.static_analysis:CallDefNode.__init__',
                   'xdoctest.static_analysis:package_modpaths', 'xdoctest.utils.util_import:_platform_pylib_exts',
                   'xdoctest.core:parse_google_docstr_examples#blocks', 'xdoctest.core:parse_auto_docstr_examples#dispatch',
                   'xdoctest.core:parse_freeform_docstr_examples#offsets', 'xdoctest.docstr.docscrape_google:split_google_docblocks',
-                  'xdoctest.core:parse_google_docstr_examples', 'xdoctest.core:parse_freeform_docstr_examples'],
+                  'xdoctest.core:parse_google_docstr_examples', 'xdoctest.core:parse_freeform_docstr_examples',
+                  'xdoctest.core:parse_doctestables#glue', 'xdoctest.core:package_calldefs', 'xdoctest.core:parse_docstr_examples#list'],
     'extra': ['bounded.c07_dispatch.run', 'bounded.c07_tree.run', 'bounded.c07_collect.run'],
     'clauses': {
-        'P': ['google style: exactly the blocks labelled Example / Doctest / Script / Benchmark become doctests, in order, numbered 0, 1, ..; '
+        'P': ['parse_doctestables (collection glue): for every module and every collected definition, in order, a docstring is parsed exactly once with the definition\'s own name, docstring line, module path and the requested style, and every doctest found is yielded',
+              'google style: exactly the blocks labelled Example / Doctest / Script / Benchmark become doctests, in order, numbered 0, 1, ..; '
               'freeform (asone): at most one doctest per docstring, exactly when some part is kept; auto: the google blocks when there are any, else freeform',
               'visit_FunctionDef (also the handler of async functions): records exactly one entry, under name or Class.name, unless a decorator '
               'is an attribute named setter / deleter (then nothing); it never descends into the body, so nested functions and classes are not reached',
